@@ -69,13 +69,27 @@ theorem tracksConnectedB_sound (d : Doc) (h : tracksConnectedB d = true) :
     ∀ x ∈ tagged (attrsMd d) d.tracks, ∀ y ∈ tagged (attrsMd d) d.tracks, x.2 = y.2 →
       Conn (((tagged (attrsMd d) d.tracks).filter (fun z => z.2 = x.2)).map (fun z => (z.1.s, z.1.t))) x.1.s y.1.s := by
   intro x hx y hy hxy
-  simp only [tracksConnectedB, List.all_eq_true, Bool.or_eq_true, Bool.not_eq_eq_eq_not, Bool.not_true,
-    decide_eq_false_iff_not, List.contains_eq_mem, decide_eq_true_eq] at h
-  rcases h x hx y hy with hne | hmem
-  · exact absurd hxy hne
-  · refine (mem_component_iff _ _ _ ?_ _).1 hmem
-    intro e he
-    simp only [List.mem_flatMap, List.mem_cons, List.not_mem_nil, or_false]
-    exact ⟨⟨e, he, Or.inl rfl⟩, ⟨e, he, Or.inr rfl⟩⟩
+  simp only [tracksConnectedB, List.all_eq_true] at h
+  have htid : x.2 ∈ dedup ((tagged (attrsMd d) d.tracks).map (·.2)) :=
+    (mem_dedup _ _).2 (List.mem_map.2 ⟨x, hx, rfl⟩)
+  have hh := h x.2 htid
+  have hxm : x ∈ (tagged (attrsMd d) d.tracks).filter (fun z => decide (z.2 = x.2)) := by
+    simp [List.mem_filter, hx]
+  have hym : y ∈ (tagged (attrsMd d) d.tracks).filter (fun z => decide (z.2 = x.2)) := by
+    simp [List.mem_filter, hy, hxy]
+  generalize hLt : (tagged (attrsMd d) d.tracks).filter (fun z => decide (z.2 = x.2)) = Lt at hh hxm hym ⊢
+  cases Lt with
+  | nil => cases hxm
+  | cons r rest =>
+    simp only [List.all_eq_true, List.contains_eq_mem, decide_eq_true_eq] at hh
+    have hV : ∀ e ∈ (r :: rest).map (fun z => (z.1.s, z.1.t)),
+        e.1 ∈ ((r :: rest).map (fun z => (z.1.s, z.1.t))).flatMap (fun e => [e.1, e.2]) ∧
+        e.2 ∈ ((r :: rest).map (fun z => (z.1.s, z.1.t))).flatMap (fun e => [e.1, e.2]) := by
+      intro e he
+      simp only [List.mem_flatMap, List.mem_cons, List.not_mem_nil, or_false]
+      exact ⟨⟨e, he, Or.inl rfl⟩, ⟨e, he, Or.inr rfl⟩⟩
+    have hcx := (mem_component_iff _ _ _ hV _).1 (hh x hxm)
+    have hcy := (mem_component_iff _ _ _ hV _).1 (hh y hym)
+    exact (conn_symm _ hcx).trans hcy
 
 end Geff.TrackMate
